@@ -12,6 +12,10 @@ from . import rules_tree as TR
 
 PROPS = {}
 
+L_SKIP = T.lint_concat_for('skip', lambda m, c: 'SKIP' in c)
+L_MATH = T.lint_concat_for('math', lambda m, c: any(k in c for k in ('MATH', 'BRACKET', 'SIZE', 'PUNCT')))
+L_STRUCT = T.lint_concat_for('struct', lambda m, c: m == 'reader' or 'SPECIAL' in c)
+
 
 def prop(pid, rules, explanation, decided, not_decided, controls=True, assumptions=()):
     PROPS[pid] = {'rules': rules, 'explanation': explanation, 'decided': decided, 'not_decided': not_decided,
@@ -19,7 +23,7 @@ def prop(pid, rules, explanation, decided, not_decided, controls=True, assumptio
 
 
 prop('C19',
-     [T.r19_a, T.r19_b, T.r19_c, T.r19_d, T.r19_e, T.r19_f, T.r19_h, T.r19_g],
+     [T.r19_a, T.r19_b, T.r19_i, T.r19_c, T.r19_d, T.r19_e, T.r19_f, T.r19_h, T.r19_g],
      'Abstract interpretation of the tokenizer (driver next_token + the ordered rule registry, read from the '
      'AST of tokens.py) over category windows: every input string is abstracted to its string of character '
      'categories, guards split abstract states per inspected slot, loops are solved to fixpoint.  The resulting '
@@ -38,8 +42,8 @@ prop('C19',
 
 
 prop('C06',
-     [RD.r06_a, RD.r06_b_reader, T.r06_b_tokens, T.r06_a_tokens, RD.r06_c, RD.r06_h, T.r19_d, RD.r06_d, RD.r06_e, RD.r06_g,
-      B.r20_c],
+     [RD.r06_a, RD.r06_b_reader, T.r06_b_tokens, T.r06_a_tokens, RD.r06_c, RD.r06_h, T.r19_d, RD.r06_d, RD.r06_i, RD.r06_e,
+      RD.r06_g, B.r20_c],
      'Three static analyses.  (1) A context-propagating dataflow over reader.py and the composite Buffer scans: per '
      'path it tracks how many items are known to exist at the token cursor, whether the cursor is exhausted and '
      'whether the current loop iteration has advanced the cursor; callees are analysed in the caller\'s actual '
@@ -68,7 +72,7 @@ prop('C20',
 
 
 prop('C08',
-     [CV.r08_a, CV.r08_b, CV.r08_c, CV.r08_d, CV.r08_e_parse_only, CV.t_agree, T.r19_b, T.r19_f],
+     [CV.r08_a, CV.r08_b, CV.r08_c, CV.r08_d, CV.r08_e_parse_only, CV.t_agree, T.r19_b, T.r19_i, T.r19_f],
      'Linear-resource (token conservation) analysis of reader.py: every token taken from the cursor and every value '
      'returned by a reader call is a resource; along every enumerated path (loops 0/1/2 times, callee result shapes '
      'per constant-argument context, to a fixpoint) each resource must be stored in the tree, returned, handed to a '
@@ -82,7 +86,7 @@ prop('C08',
      'character-for-character equality of output and input; alignment of the output against the input.')
 
 prop('C01',
-     [CV.r08_a_adjacent, CV.r08_b_wellformed, CV.r08_d, CV.r08_e_parse_only, CV.t_agree, CV.r01_a, RO.r11_c, T.r19_b, T.r19_c, T.r19_f],
+     [CV.r08_a_adjacent, CV.r08_b_wellformed, CV.r08_d, CV.r08_e_parse_only, CV.t_agree, CV.r01_a, RO.r11_c, RO.r11_e, L_SKIP, T.r19_b, T.r19_i, T.r19_c, T.r19_f],
      'The conservation skeleton of C08 restricted to what a well-formed document reaches, plus raw capture of '
      'skipped-environment bodies and rollback completeness of the tokenizer (the spacer rule restores the cursor '
      'exactly when it emits nothing).',
@@ -105,7 +109,7 @@ prop('C10',
      'environments (excluded by the precondition of C11).')
 
 prop('C12',
-     [T.r12_a, S.r12_b, CV.t_agree, S.r12_c, S.r12_d, S.r12_e, T.r09_struct],
+     [T.r12_a, S.r12_b, CV.t_agree, S.r12_c, S.r12_d, S.r12_e, L_MATH, T.r09_struct],
      'Assertions on the tokenizer dispatch table for $ / $$ / backslash-bracket windows, agreement of the kind <-> '
      'class <-> delimiter tables with the tokenizer, def-use rules on the math-region reader and the dispatcher, and '
      'table rules for operators and sizing commands.',
@@ -116,7 +120,7 @@ prop('C12',
      'the exact body text of a region; pairing when bodies contain the same switch.')
 
 prop('C09',
-     [T.r09_a, S.r09_b, S.r09_c, S.r09_d, S.r09_g, S.r09_e, T.r09_struct, S.r12_d],
+     [T.r09_a, S.r09_b, S.r09_c, S.r09_d, S.r09_g, S.r09_h, S.r09_e, T.r09_struct, S.r12_d],
      'Assertions on the tokenizer dispatch table for whitespace and delimiter windows, the cursor-movement summary '
      'of the whitespace reader, conservation of the whitespace token on the break paths of the argument loops, a '
      'taint rule on the whitespace variable and def-use rules on the group reader.',
@@ -140,7 +144,7 @@ prop('C07',
      'which inputs strict mode rejects; the shape of the repaired output.')
 
 prop('C11',
-     [RO.r11_a, RO.r11_b, RO.r11_c, RO.r11_d, CV.r01_a, CV.r08_b_skip],
+     [RO.r11_a, RO.r11_b, RO.r11_c, RO.r11_d, RO.r11_e, L_SKIP, CV.r01_a, CV.r08_b_skip],
      'Call-graph reachability from the raw reader, role inference and threading for the skip list, a dominance rule '
      'on the decision to read raw, def-use of the raw scan result, and the shape of the conditional scan.',
      'R11.a the raw reader reaches no parsing function; R11.b built-in and user names are one set and the decision is '
@@ -150,7 +154,7 @@ prop('C11',
      'the body-dependent preconditions of the statement (runtime).')
 
 prop('C02',
-     [RO.r02_a, RO.r02_b, S.r02_c, S.r12_d, S.r09_e],
+     [RO.r02_a, RO.r02_b, S.r02_c, S.r09_h, L_STRUCT, CV.r08_a_wellformed, S.r12_d, S.r09_e],
      'Role inference and threading for the reading mode, must-flow of the definition mode from the command reader to '
      'the dispatcher\'s \\begin test, and def-use rules on the item reader and the group reader.',
      'R02.a the mode is forwarded on every edge and the definition mode reaches the \\begin test through brace and '
@@ -192,7 +196,7 @@ prop('C03',
      'exactness of result lists; match semantics of full-expression queries beyond the comparison performed.')
 
 prop('C04',
-     [TR.r04_a, TR.r04_b, TR.r04_c, TR.r04_d, TR.r03_a],
+     [TR.r04_a, TR.r04_b, TR.r04_c, TR.r04_d, TR.r03_a, TR.r15_d],
      'Class-lattice evaluation of the view predicates and def-use rules on the node views.',
      'R04.a contents drops only whitespace-only text, children admits exactly the non-text expression classes, no '
      'view reorders; R04.b both containers are enumerated; R04.c every wrapper has its parent set before it is '
@@ -200,7 +204,7 @@ prop('C04',
      'that the root content list concatenates to the whole document (C01/C08); value-level equalities between views.')
 
 prop('C05',
-     [TR.r05_a, TR.r05_b, TR.r05_d, TR.r05_c],
+     [TR.r05_a, TR.r05_e, TR.r05_b, TR.r05_d, TR.r05_c, TR.r15_b],
      'Search-primitive classification and def-use rules on the edit methods: which primitive locates the target, '
      'which index the replacement uses, where the items of a multi-item insertion go.',
      'R05.a the target is located by identity (expressions compare equal by text, so an equality search edits an '
@@ -209,7 +213,7 @@ prop('C05',
      'the splice equation itself (the resulting text equals the original with the span substituted).')
 
 prop('C15',
-     [TR.r05_a, TR.r05_d, TR.r05_c, TR.r15_a, TR.r15_b, TR.r15_c, TR.r15_d],
+     [TR.r05_a, TR.r05_e, TR.r05_d, TR.r05_c, TR.r15_a, TR.r15_b, TR.r15_c, TR.r15_d],
      'Effect (frame) analysis of the mutators, a no-memoisation rule on the views, a kind-flow analysis of what can '
      'enter a content list through the public mutators, and totality of the text view over those kinds.',
      'R05.a/c targeted look-up by identity and ordered multi-insert; R15.a a mutator writes only its receiver\'s '
